@@ -458,6 +458,14 @@ impl VM {
                         self.push(Object::null());
                     }
 
+                    #[cfg(feature = "verif")]
+                    crate::verif::probe_fresh_frame(
+                        self.ip,
+                        &self.stack,
+                        base_pointer,
+                        num_args,
+                        num_locals,
+                    );
                     self.pushframe(ip, base_pointer);
                 }
                 OpCode::CallBuiltin => {
